@@ -195,6 +195,13 @@ PROPERTIES = {
         'rule': 'every accepted string of the vparse family is printed, re-parsed (all five fields compared) and round-tripped through serde_json; non-trivial = accepted strings whose printed form differs from the input',
         'explanation': 'theorems: a parsed (or canonical) version whose printed form fits MAX_LENGTH parses back to itself; printing is a fixed point; the printed form is a strict version text over [0-9A-Za-z.+-]',
     },
+    'C17': {
+        'families': [{'name': 'errors', 'gen': FV.gen_errors, 'eval': FV.eval_errors}],
+        'rule': 'every rejected string of the vparse family plus range texts that fail to parse: input(), offset(), location(), kind() compared with independent Python readings (byte-level line/column, '
+                'character boundary, the first too-large component); the miette Diagnostic methods and a Report are rendered for each; non-trivial = rejections whose offset is not 0',
+        'explanation': 'theorems: input = the string passed in; offset = byte length of a prefix (in range, on a character boundary); location = line/column of that prefix; MaxLength for over-long inputs; '
+                       'MaxInt(n)/ParseInt at the position of the first, second or third component; NoValidRanges at offset 0 for ranges',
+    },
     'C18': {
         'families': [{'name': 'tuple', 'gen': FV.gen_tuple, 'eval': FV.eval_tuple}],
         'rule': 'tuple family: the ten From impls on boundary-dense grids and random values; non-trivial = conversions with a component above 255 (beyond the narrowest type)',
